@@ -34,6 +34,7 @@ def step (line : String) : String :=
   | "fm" :: ws => cmdFm ws
   | "fb" :: ws => cmdFb ws
   | "fan" :: ws => cmdFan ws
+  | "fanc" :: ws => cmdFanC ws
   | "filter" :: ws => cmdFilter ws
   | "hub" :: ws => cmdHub ws
   | "mux" :: ws => cmdMux ws
